@@ -31,7 +31,9 @@ rx_active fell) and within the response window; no report and no ACK for anythin
 Not judged (counted as unjudged): the data packet when something that is neither idle nor a well-formed token sat
 between the SETUP token and it (handshake, damaged packet: the statement does not say whether the SETUP is still
 pending); SETUP data with a PID other than DATA0 (a host never sends it); responses to PING (the control endpoint
-may ACK them).  SETUP tokens to endpoints other than 0 are not generated.  The exact ACK cycle is C05's subject.
+may ACK them).  A SETUP transaction to our address but another endpoint number is judged in the device (the control
+endpoint must neither report it to its request handlers nor ACK it) and unjudged on the stand-alone decoder, which has
+no endpoint number.  The exact ACK cycle is C05's subject.
 
 Reference state after a miss: when an expected report does not come, the reference no longer knows whether the decoder
 still waits for data; everything up to the next token addressed to us is then unjudged (no cascades of one failure).
@@ -61,7 +63,7 @@ PRE_KINDS = ["data_badcrc_short", "data_badcrc_8", "data_truncated", "data_overl
 REQUIRED_BINS = (["mode_sa_hs", "mode_sa_fs", "mode_dev_fs12", "mode_dev_fs60", "valid_setup", "valid_setup_back_to_back",
                   "setup_wrong_len_short", "setup_wrong_len_long", "setup_len_7", "setup_len_9", "setup_len_0", "setup_bad_crc",
                   "setup_truncated", "setup_tail", "setup_data_bad_pid", "setup_overlong_embedded_setup_tail",
-                  "setup_overlong_pidlike_crc_valid", "data8_without_setup_token", "own_token_between", "foreign_token_between",
+                  "setup_overlong_pidlike_crc_valid", "setup_token_other_endpoint", "judged_data_after_setup_to_other_endpoint", "data8_without_setup_token", "own_token_between", "foreign_token_between",
                   "sof_between", "junk_between", "tight_gap_before_setup", "nonzero_address", "foreign_addr_one_bit",
                   "payload_single_bit", "rx_gaps", "tx_backpressure", "setup_token_repeated", "retry_after_rejected_setup_data",
                   "judged_data_after_foreign_token", "judged_data_after_sof_token"]
@@ -251,6 +253,12 @@ class Script:
             # a complete valid 8-byte packet followed by more bytes inside the same packet
             p = U.data(U.DATA0, _payload(rng, 8)) + bytes(rng.randrange(256) for _ in range(rng.randint(1, 3)))
             self.add("setup_data_tail", p, gap="td", respond=True, tag="setup_tail")
+        elif variant == "other_ep":
+            # a complete, valid SETUP transaction to our address but NOT to the control endpoint
+            self.steps[-1]["data"] = U.token(U.SETUP, own, rng.randint(1, 15))
+            self.steps[-1]["kind"] = "setup_token_other_ep"
+            self.steps[-1]["tag"] = "setup_token_other_endpoint"
+            self.add("setup_data_other_ep", U.data(U.DATA0, _payload(rng, 8)), gap="td", respond=True)
         elif variant == "overlong_pidlike":
             emb = rng.random() < 0.55
             self.add("setup_data_overlong_pidlike", _overlong(rng, emb), gap="td", respond=True,
@@ -284,7 +292,7 @@ class Script:
 
     def build(self, nblocks):
         rng = self.rng
-        variants = ["good"] * 10 + ["wrong_len"] * 4 + ["bad_crc"] * 2 + ["truncated", "tail", "other_pid", "bad_pid_data", "no_data", "stray8", "stray8", "overlong_pidlike", "overlong_pidlike"] + ["between"] * 3
+        variants = ["good"] * 10 + ["wrong_len"] * 4 + ["bad_crc"] * 2 + ["truncated", "tail", "other_pid", "bad_pid_data", "no_data", "stray8", "stray8", "overlong_pidlike", "overlong_pidlike", "other_ep", "other_ep"] + ["between"] * 3
         for _ in range(nblocks):
             r = rng.random()
             if r < 0.72:
@@ -480,6 +488,7 @@ def judge(res, mode, own, pkts, recs, acks, last_cycle):
     # SETUP data (SETUP token seen, no report observed and no CRC-valid data packet of <= 8 bytes outside a "poisoned"
     # context since); repeat = the SETUP token of the current transaction arrived while cls_open.
     cls_open, repeat = False, False
+    other_ep = False        # the last token to us was a SETUP for an endpoint other than 0
     ri = ai = 0
     for idx, (p, info) in enumerate(zip(pkts, infos)):
         if p["end"] is None:
@@ -574,6 +583,9 @@ def judge(res, mode, own, pkts, recs, acks, last_cycle):
                         why = "bad_crc"
                 else:
                     why = "without_setup_token"
+                    if other_ep and valid8:
+                        why = "for_setup_to_other_endpoint"
+                        res.bin("judged_data_after_setup_to_other_endpoint")
                 if poisoned and kind == "data" and not valid8:
                     # open finding: the stuck deserializer reports a concatenation of packets
                     why = "after_damaged_data_packet"
@@ -598,9 +610,14 @@ def judge(res, mode, own, pkts, recs, acks, last_cycle):
             elif my_acks and not is_ping_to_us:
                 out.append(("ack_without_data_packet", ctx + " acks=%s" % my_acks))
             if kind == "token" and info["addr"] == own:
+                other_ep = info["pid"] == U.SETUP and info["endp"] != 0
                 if info["pid"] == U.SETUP and info["endp"] == 0:
                     repeat, cls_open = cls_open, True
                     open_setup, other_token, junk = True, None, False
+                elif other_ep and not device:
+                    # the stand-alone decoder is not the control endpoint (it has no endpoint number): not judged
+                    open_setup, other_token, junk = True, None, True
+                    cls_open = repeat = False
                 else:
                     open_setup, other_token, junk = False, None, False
                     cls_open = repeat = False
